@@ -8,7 +8,7 @@ compact_timeslot(sind_list)   (C18)
                                                                                      (onto 0..k-1, k = |sind_list|)
     trusted   sorted(): an ascending duplicate-free enumeration of exactly the elements; enumerate()."""
 import z3
-from pyvc.sym import fresh, fresh_fun, Int, Bool, inb, FA
+from pyvc.sym import fresh, fresh_fun, Int, Bool, Node, inb, FA
 from pyvc.values import *   # noqa
 from pyvc.seqs import VIntSet
 from .base import Contract, Call
@@ -64,3 +64,40 @@ class CompactTimeslot(Contract):
                         return {'violated': {'C18.compact.order_preserving_bijection': {'got': repr(r), 'expected': repr(exp)}},
                                 'call': 'compact_timeslot(%r)' % (inp,), 'args': [inp], 'outcome': 'return %r' % (r,)}
         return None
+
+
+class _PathFn(Contract):
+    """path = a non-empty sequence of hops (a, b, t); only len, the first and the last time are read"""
+    props = ('C14',)
+
+    def setup(self, ctx, variant):
+        n = fresh('n', Int)
+        ha, hb = fresh_fun('hop_a', Int, Node), fresh_fun('hop_b', Int, Node)
+        ht = fresh_fun('hop_t', Int, Int)
+        ctx.assume(n >= 1)          # C14: paths are non-empty
+        path = VSeq(n, lambda k: VTuple([VNode(ha(k)), VNode(hb(k)), VInt(ht(k))]), {'elem_kind': 'tuple'})
+        return Call(n=n, ht=ht, argv=[path], kwv={})
+
+
+class PathLength(_PathFn):
+    key = 'paths::path_length'
+
+    def finish(self, ctx, c, outcome):
+        if outcome[0] == 'raise':
+            return self.forbid(ctx, 'C14.path_length.no_exception.%s' % outcome[1], tags=('C14',), note=outcome[2])
+        r = outcome[1]
+        if r.kind != 'int':
+            return self.forbid(ctx, 'C14.path_length.returns_an_int', tags=('C14',))
+        ctx.oblige('C14.path_length.is_the_hop_count', r.z == c.n, tags=('C14',))
+
+
+class PathDuration(_PathFn):
+    key = 'paths::path_duration'
+
+    def finish(self, ctx, c, outcome):
+        if outcome[0] == 'raise':
+            return self.forbid(ctx, 'C14.path_duration.no_exception.%s' % outcome[1], tags=('C14',), note=outcome[2])
+        r = outcome[1]
+        if r.kind != 'int':
+            return self.forbid(ctx, 'C14.path_duration.returns_an_int', tags=('C14',))
+        ctx.oblige('C14.path_duration.is_last_minus_first_time', r.z == c.ht(c.n - 1) - c.ht(0), tags=('C14',))
